@@ -215,6 +215,33 @@ func init() {
 			st.ex.mu.Unlock()
 			st.useStub("regexp.MatchString(p, s) = (str.in_re s [[p]]) with [[p]] from regexp/syntax (RE2 semantics, code points <= U+2FFFF)")
 			return tuple{symBool{"(str.in_re " + s.name + " " + r + ")"}, iface{}}
+		case symStr:
+			// a string of concrete length with symbolic bytes: the SMT string made of its bytes, each taken
+			// as the code point of that value - exact for ASCII strings (the harness restricts the
+			// alphabet), for bytes >= 0x80 Go would decode UTF-8 sequences instead
+			r, err := RegexToSMT(pat)
+			if err != nil {
+				panic(unsupported("regexp translation: " + err.Error()))
+			}
+			var parts []string
+			for _, b := range s.b {
+				switch x := b.(type) {
+				case uint8:
+					parts = append(parts, fmt.Sprintf("\"\\u{%x}\"", x))
+				case symInt:
+					parts = append(parts, "(str.from_code (bv2nat "+x.t+"))")
+				default:
+					panic(unsupported(fmt.Sprintf("string byte of type %T", b)))
+				}
+			}
+			term := "\"\""
+			if len(parts) == 1 {
+				term = parts[0]
+			} else if len(parts) > 1 {
+				term = "(str.++ " + strings.Join(parts, " ") + ")"
+			}
+			st.useStub("regexp.MatchString(p, s) on a string of symbolic ASCII bytes = (str.in_re <bytes as code points> [[p]])")
+			return tuple{symBool{st.nameBool("(str.in_re " + term + " " + r + ")")}, iface{}}
 		}
 		panic(unsupported(fmt.Sprintf("regexp.MatchString on %T", args[1])))
 	}
